@@ -296,8 +296,11 @@ def plan(tier, seed):
 
 
 MANIFEST = dict(
-    technique="bounded model checking of the real dispatch code (Kani/CBMC) with the metadata triple symbolic over every enum value; math kernels stubbed",
-    text="The whole 14x13x18 metadata space is covered symbolically in each harness (no enumeration): success/error contract, symmetry of every conversion pair, equality of errors for "
-         "single-stage pairs, standard combinations always succeed, and independence of YUV<->RGB from transfer/primaries for symbolic pixel data.",
-    note="1x1 images, 8-bit limited 4:4:4; powf/expf/cbrtf stubbed where only Ok/Err is observed. Known finding F7 (both transfer and primaries unsupported: the two directions report different errors) is checked in its own harness.",
+    technique="bounded model checking of the real dispatch code (Kani/CBMC) with matrix and transfer symbolic over every enum value, one instance per primaries value; data paths and math kernels stubbed",
+    text="Single-stage pairs (YUV<->RGB, gamma<->linear): matrix (14 values) and transfer (18 values) symbolic, one harness instance per primaries value (quick: all 13 for gamma<->linear, 6 of 13 for YUV<->RGB; thorough: all) - "
+         "success/error contract, symmetry, equality of errors, standard combinations succeed, independence of YUV<->RGB from transfer/primaries for symbolic data. "
+         "Multi-stage pairs (YUV<->linear RGB, YUV<->XYB): transfer symbolic, matrix and primaries concrete per instance; the quick tier runs the error-path instances only, "
+         "the success-path instances are in the thorough tier and may end inconclusive (SAT solver memory).",
+    note="1x1 images, 8-bit limited 4:4:4; Plane::new, Matrix::mul_arr/invert, the image-level curve loops and powf/expf/cbrtf are pure stand-ins where only Ok/Err, errors, config and data-independence are observed. "
+         "Known finding F7 (both transfer and primaries unsupported: the two directions report different errors) is checked in its own harness.",
 )
